@@ -16,9 +16,13 @@ FILES = [
      "bounded: scripted id generator (<= 4 draws incl. 0 and ids in use), concrete host/payload lengths; ids, ports, windows, payload bytes symbolic"),
     ("penguin-mux/bridge_verif_kani.rs", "penguin-mux", "model", "std,nohash",
      "bounded: one scripted shape of the local side per harness (<= 4 steps, chunks of 1-2 bytes); data bytes and credit symbolic; one or two polls"),
+    ("penguin-mux/ping_verif_kani.rs", "penguin-mux", "model", "std,nohash,tokio-time",
+     "complete over (timeout T incl. none, last-pong time, current time) in whole seconds; one tick per harness (the tick source is the tokio-time stand-in)"),
     ("penguin-socks/readers_verif_kani.rs", "penguin-socks", "model", "",
      "bounded: concrete field lengths and chunking per instantiation; all field contents symbolic"),
 ]
+
+DEFAULT_PROPS = {"penguin-mux/bridge_verif_kani.rs": ["C13"], "penguin-mux/ping_verif_kani.rs": ["C16"]}
 
 SOCKS_CONTRACT = [
     ("c18_s5_req_domain", "v5::read_request on a domain-type request returns (CMD, the LEN domain bytes, PORT) and consumes exactly the request"),
@@ -43,7 +47,7 @@ def scan(path):
     out = []
     i = 0
     while i < len(src):
-        m = re.match(r"\s*fn ((?:t|m|b)_\w+)\(\)", src[i])
+        m = re.match(r"\s*fn ((?:t|m|b|p)_\w+)\(\)", src[i])
         if m:
             name = m.group(1)
             # attribute block above
@@ -92,7 +96,7 @@ def main():
             o = per.get(h["name"], {})
             if o.get("skip"):
                 continue
-            props = o.get("props", h["props"])
+            props = o.get("props", h["props"]) or DEFAULT_PROPS.get(rel, [])
             lines += ["", "[[harness]]", "name = %s" % q(h["name"]), "crate = %s" % q(crate), "config = %s" % q(config),
                       "features = %s" % q(o.get("features", features)), "props = %s" % json.dumps(props),
                       "tier = %s" % q("quick" if h["name"] in quick else o.get("tier", "thorough")),
